@@ -74,8 +74,9 @@ func NewToUnicodeFile(csr charcode.CodeSpaceRange, data map[charcode.Code]string
 					last[len(key)] = info[i-1].x
 
 					needsList := false
-					for j := start; j < i-1; j++ {
-						if data[info[j+1].code] != nextString(data[info[j].code], 1) {
+					base := data[info[start].code]
+					for j := start + 1; j < i; j++ {
+						if data[info[j].code] != nextString(base, j-start) {
 							needsList = true
 							break
 						}
